@@ -175,8 +175,20 @@ def oracle_c06(ctx: Ctx, n):
             ctx.finding(f"reparse|{_render_form(text)}|{_bshape(s)}", f"str(s) does not parse back ({type(e).__name__})", {"specifier": desc, "value": show(s), "text": text}, "parses", repr(e))
             continue
         if not (back == s):
-            ctx.finding(f"roundtrip|{_render_form(text)}|{_bshape(s)}", "parse_version_specifier(str(s)) != s", {"specifier": desc, "value": show(s), "text": text}, show(s), show(back))
+            ctx.finding(f"roundtrip|{'tilde-max-post' if _tilde_max_post(s) else _render_form(text)}|{_bshape(s)}", "parse_version_specifier(str(s)) != s", {"specifier": desc, "value": show(s), "text": text}, show(s), show(back))
     ctx.sample({"stream": "oracle-C06", "case": desc, "text": text})
+
+
+def _tilde_max_post(s) -> bool:
+    """does some member range render as ~=... although its upper bound is a post-release? (the recorded rendering defect)"""
+    rs = getattr(s, "ranges", None) or ([s] if type(s).__name__ == "RangeSpecifier" else [])
+    for r in rs:
+        try:
+            if r.max is not None and r.max.is_postrelease and str(r).startswith("~="):
+                return True
+        except Exception:  # noqa: BLE001
+            pass
+    return False
 
 
 def _render_form(text):
@@ -253,7 +265,7 @@ def oracle_c04(ctx: Ctx, n):
                 ctx.finding(f"contains-raise|{type(e).__name__}|{_bshape(s)}", f"membership raised {type(e).__name__}", {"expr": desc, "version": str(v)}, exp, repr(e))
                 break
             if got1 != exp or got2 != exp:
-                ctx.finding(f"member|{_render_form(_safe_str(s))}|{_bshape(s)}|{tree[0]}", "`v in result` differs from the Boolean combination of packaging's answers on the leaves",
+                ctx.finding(f"member|{'tilde-max-post' if _tilde_max_post(s) else _render_form(_safe_str(s))}|{_bshape(s)}|{tree[0]}", "`v in result` differs from the Boolean combination of packaging's answers on the leaves",
                             {"expr": desc, "version": str(v), "result": show(s), "rendered": _safe_str(s)}, exp, [got1, got2])
                 break
     # === leaves: same equation or ValueError
